@@ -13,7 +13,8 @@ PROPS = {
         "level": "exploration",
         "tests": [T("TestC01Converge", "fleet", 1200, 128000, shards=16, qshards=4),
                   T("TestC01OrderIndependent", "fleet", 600, 64000, shards=16, qshards=4),
-                  T("TestC01Dup", "kv", 400, 48000, shards=16, qshards=4)],
+                  T("TestC01Dup", "kv", 400, 48000, shards=16, qshards=4),
+                  T("TestC01Contended", "kv", 300, 32000, shards=16, qshards=4)],
         "assumptions": [
             "tomb sweeper disabled (as the property states)",
             "native mode: an application overwrite is stamped strictly later than the version it overwrites (shared monotone clock); equal timestamps arise between instances that have not seen each other's versions",
@@ -74,6 +75,7 @@ PROPS = {
             T("TestC10Loop", "fleet", 240, 12000, shards=16, qshards=4, procs=4),
             T("TestC10Swept", "fleet", 3000, 960000, shards=16, qshards=2),
             T("TestC10Burst", "fleet", 240, 24000, shards=16, qshards=4, procs=4),
+            T("TestC10LoopEnum", "fleet", 1, 1, enum=True, qshards=4, shards=8, procs=4),
         ],
         "assumptions": [
             "part A (direct driver): re-merging merged content commits nothing; part B (real loops under the scheduler): uploads are counted in a write-free phase of 2N+2 rounds",
@@ -224,6 +226,7 @@ PROPS = {
             T("TestC16Receiver", "recv", 320, 16000, shards=16, qshards=4, procs=4),
             T("TestC16RunOnce", "fleet", 150, 16000, shards=16, qshards=4, procs=4),
             T("TestC16Pauses", "recv", 1, 1, enum=True, qshards=8, shards=8, procs=4),
+            T("TestC16LoopRedeliver", "fleet", 1, 1, enum=True, qshards=4, shards=8, procs=4),
         ],
         "assumptions": [
             "'eventually delivered' is decided in bounded form: with faults off, a frozen bucket and a draining consumer every other instance's newest decodable snapshot must arrive within 10 s of polling at 1 ms intervals; if the process itself was starved of CPU (heartbeat goroutine) the case is inconclusive, not a violation",
